@@ -264,7 +264,6 @@ fn run_case(line: &str) -> String {
     let mut gen_seen: Vec<bool> = vec![false; threads];
     let mut stray_calls: Vec<u64> = vec![0; threads];
     let mut bad = false;
-    let skip = options.skip_ext_time.unwrap_or(false);
     for e in &log {
         let t = e.thread as usize;
         if t >= threads {
@@ -275,7 +274,7 @@ fn run_case(line: &str) -> String {
             v::ev::CLOCK_START => {
                 // Every round generates its inputs before its START reading, so a
                 // START of the caller before any generation is `initial_start`.
-                if t == 0 && !skip && init.is_none() && !gen_seen[0] {
+                if t == 0 && init.is_none() && !gen_seen[0] {
                     init = Some(e.a);
                     continue;
                 }
